@@ -16,11 +16,10 @@
 
    What is NOT proved here (checked only by the correspondence run and the
    judge, see docs/C06.md "missing"): leaf coverage (C06_complete), the
-   non-SAME <-> differ equivalence and its reflexivity corollary, the bridge
-   from Python's == (node_eq) to the spec's data_eq, and entry-level
-   accounting through mappings. *)
+   non-SAME <-> differ equivalence and its reflexivity corollary, and
+   entry-level accounting through mappings. *)
 From Coq Require Import List Ascii String ZArith NArith Bool Arith Permutation.
-From YP Require Import Outcome PyStr PyVal Doc Diff C06Spec DiffBase DiffPos DiffTotal DiffSync.
+From YP Require Import Outcome PyStr PyVal Doc Diff C06Spec DiffBase DiffPos DiffTotal DiffSync DiffEq.
 Import ListNotations.
 Open Scope string_scope.
 
@@ -54,6 +53,44 @@ Theorem C06_change_differs_py :
     Forall (fun e => e_action e = AChange -> node_eq (e_lhs e) (e_rhs e) = false) es.
 Proof. exact positional_change_py. Qed.
 Print Assumptions C06_change_differs_py.
+
+(* SAME values are equal and CHANGE values differ AS DATA (the spec's data_eq:
+   key order is not data, sequence order and tags are).  Guard: neither
+   document carries an explicit YAML tag -- with tags the statement is false
+   (known finding F1): a TaggedScalar is compared by identity and container
+   tags are ignored by Python's ==. *)
+Theorem C06_same_equal_partial :
+  forall path_eq cfg L R es,
+    positional cfg -> wf_doc L = true -> wf_doc R = true ->
+    untagged L = true -> untagged R = true ->
+    compare_to path_eq cfg L R = Ok es -> Forall same_ok es.
+Proof. exact positional_same_equal. Qed.
+Print Assumptions C06_same_equal_partial.
+
+Theorem C06_same_equal_refuted :
+  exists L R es, wf_doc L = true /\ wf_doc R = true /\
+    compare_to path_eq_real dflt_cfg L R = Ok es /\ ~ Forall same_ok es.
+Proof. exact same_equal_refuted_witness. Qed.
+
+Theorem C06_change_differs_partial :
+  forall path_eq cfg L R es,
+    positional cfg -> wf_doc L = true -> wf_doc R = true ->
+    untagged L = true -> untagged R = true ->
+    compare_to path_eq cfg L R = Ok es -> Forall change_ok es.
+Proof. exact positional_change_differs. Qed.
+Print Assumptions C06_change_differs_partial.
+
+Theorem C06_change_differs_refuted :
+  exists L R es, wf_doc L = true /\ wf_doc R = true /\
+    compare_to path_eq_real dflt_cfg L R = Ok es /\ ~ Forall change_ok es.
+Proof. exact change_differs_refuted_witness. Qed.
+
+(* Python's == on loaded nodes IS data equality on real, untagged documents *)
+Theorem C06_python_eq_is_data_eq :
+  forall a b, wf_doc a = true -> wf_doc b = true -> untagged a = true -> untagged b = true ->
+    node_eq a b = data_eq a b.
+Proof. exact node_eq_data_eq. Qed.
+Print Assumptions C06_python_eq_is_data_eq.
 
 (* A positional comparison always yields a diff: the fuel compare_to hands to
    the recursion suffices (never OutOfFuel) and nothing raises -- in
@@ -111,6 +148,13 @@ Example C06_fixed_null_element :
   wf_doc d = true /\
   acts (compare_to path_eq_real dflt d d) = Ok [(ASame, [RIdx 0]); (ASame, [RIdx 1])].
 Proof. vm_compute. split; reflexivity. Qed.
+
+Example C06_guard_example :
+  let L := sq 0 [mp 1 [(lf 2 (PStr "a"), lf 3 (PInt 1)); (lf 4 (PStr "b"), lf 5 (PInt 2))]] in
+  let R := sq 6 [mp 7 [(lf 4 (PStr "b"), lf 5 (PInt 2)); (lf 2 (PStr "a"), lf 3 (PInt 1))]] in
+  wf_doc L = true /\ wf_doc R = true /\ untagged L = true /\ untagged R = true /\
+  acts (compare_to path_eq_real dflt L R) = Ok [(ASame, [RIdx 0])].
+Proof. vm_compute. repeat split; reflexivity. Qed.
 
 (* defect #19, repaired: [1, 2] compared with [] reports two deletions *)
 Example C06_fixed_empty_rhs :
